@@ -214,6 +214,8 @@ class NP(object):
         if a.dtype == object and not all(
                 isinstance(e, str) for e in a.flat):
             a = lift_array(a)
+            if a.ndim >= 1:
+                a = a.view(SymArray)
         return a
 
     def copy(self, a, **k):
